@@ -418,12 +418,12 @@ Proof.
   - destruct (c =? BSL) eqn:B; cbn [unescape4]; rewrite B; [|f_equal; exact IH].
     cbn [bsl_safe] in H. rewrite B in H. destruct t as [|a t']; [discriminate|].
     apply andb_true_iff in H as [Ha _]. apply negb_true_iff in Ha.
-    assert (Sa : S a = false) by (destruct (S a) eqn:E; [rewrite (SS _ E) in Ha; discriminate|reflexivity]).
+    assert (Sa : S a = false) by (destruct (S a) eqn:E; [pose proof (SS _ E); congruence|reflexivity]).
     rewrite esc_set_cons, Sa in *. cbn [app] in *. rewrite Ha. f_equal. exact IH.
 Qed.
 
 Lemma meas_stop_esc c : is_meas_stop c = true -> is_esc_char c = true.
-Proof. unfold is_meas_stop, is_esc_char. destruct (c =? COMMA), (c =? SP); cbn; auto; discriminate. Qed.
+Proof. unfold is_meas_stop, is_esc_char. destruct (c =? COMMA), (c =? DQ), (c =? SP), (c =? EQ); cbn; auto. Qed.
 Lemma tag_stop_not_bsl : is_tag_stop BSL = false. Proof. reflexivity. Qed.
 
 Lemma name_ok_key n : name_ok n = true -> key_name_ok n = true /\ bsl_safe is_esc_char n = true.
@@ -489,6 +489,9 @@ Fixpoint pushes (w : bytes) (r : tres) : tres :=
 
 Lemma pushes_ok w s ss rest : pushes w (Ok (s :: ss, rest)) = Ok ((w ++ s) :: ss, rest).
 Proof. induction w as [|c t IH]; [reflexivity|]. cbn [pushes app]. rewrite IH. reflexivity. Qed.
+
+Lemma pushes_app a b r : pushes (a ++ b) r = pushes a (pushes b r).
+Proof. induction a as [|x a IH]; [reflexivity|]. cbn [app pushes]. rewrite IH. reflexivity. Qed.
 
 Lemma scan_tags_kloop : forall wk prev l,
   pclean is_tag_stop prev wk = true -> (last wk prev =? BSL) = false ->
@@ -559,9 +562,7 @@ Proof.
   split; intro l; cbn [app scan_tags pushes]; rewrite Ck1, Ck2, Ck3; cbn [orb];
     rewrite <- List.app_assoc; cbn [app]; rewrite (scan_tags_kloop kw k0 _ Pk Lk);
     cbn [scan_tags]; rewrite Cv1, Cv2; cbn [orb]; [rewrite V1|rewrite V2];
-    rewrite <- !List.app_assoc; cbn [app];
-    (* pushes distributes over the concatenation *)
-    clear; induction kw as [|x kw IH]; cbn [app pushes]; [reflexivity|rewrite IH; reflexivity].
+    rewrite pushes_app; reflexivity.
 Qed.
 
 Fixpoint tags_body (ts : list (bytes * bytes)) : bytes :=   (* k1=v1,k2=v2 *)
@@ -575,7 +576,7 @@ Lemma flat_map_tag_text ts : ts <> [] -> flat_map tag_text ts = COMMA :: tags_bo
 Proof.
   induction ts as [|kv r IH]; [congruence|]. intros _. cbn [flat_map]. rewrite tag_text_seg.
   destruct r as [|kv' r']; [cbn; rewrite List.app_nil_r; reflexivity|].
-  rewrite IH; [|discriminate]. cbn [app tags_body]. rewrite <- List.app_assoc. reflexivity.
+  rewrite IH; [|discriminate]. reflexivity.
 Qed.
 
 Lemma scan_tags_all ts : ts <> [] -> forallb tagpair_ok ts = true ->
@@ -588,4 +589,1218 @@ Proof.
   - change (tags_body (kv :: kv' :: r')) with (seg_of kv ++ COMMA :: tags_body (kv' :: r')).
     rewrite <- List.app_assoc. cbn [app]. rewrite S1, (IH ltac:(discriminate) H2 COMMA rest).
     cbn [newseg]. rewrite pushes_ok, List.app_nil_r. reflexivity.
+Qed.
+
+Lemma esc_plain S k : forallb (fun c => negb (S c)) k = true -> esc_set S k = k.
+Proof.
+  induction k as [|c t IH]; [reflexivity|]. cbn [forallb]. intro H. apply andb_true_iff in H as [H1 H2].
+  rewrite esc_set_cons. apply negb_true_iff in H1. rewrite H1. cbn. f_equal. exact (IH H2).
+Qed.
+
+Lemma esc_no_bsl S k : forallb (fun c => negb (c =? BSL)) (esc_set S k) = true ->
+  forallb (fun c => negb (S c)) k = true.
+Proof.
+  induction k as [|c t IH]; [reflexivity|]. rewrite esc_set_cons. destruct (S c) eqn:Sc; cbn [app forallb].
+  - rewrite N.eqb_refl. discriminate.
+  - intro H. apply andb_true_iff in H as [_ H]. rewrite Sc. cbn. exact (IH H).
+Qed.
+
+Lemma reserved_plain r : is_reserved r = true -> forallb (fun c => negb (c =? BSL)) r = true.
+Proof.
+  unfold is_reserved, reserved_keys. cbn [existsb]. rewrite !orb_true_iff.
+  intros [H|[H|[H|[H|[H|H]]]]]; try discriminate;
+    apply (list_eqb_spec N.eqb N.eqb_eq) in H; subst r; reflexivity.
+Qed.
+
+Lemma is_reserved_escape_tag k : is_reserved (escape_tag k) = is_reserved k.
+Proof.
+  destruct (is_reserved (escape_tag k)) eqn:E.
+  - pose proof (reserved_plain _ E) as P. rewrite escape_tag_set in P. apply esc_no_bsl in P.
+    rewrite escape_tag_set, (esc_plain _ _ P) in E. congruence.
+  - destruct (is_reserved k) eqn:E2; [|reflexivity].
+    pose proof (reserved_plain _ E2) as P.
+    assert (Q : forallb (fun c => negb (is_tag_stop c)) k = true).
+    { revert E2. unfold is_reserved, reserved_keys. cbn [existsb]. rewrite !orb_true_iff.
+      intros [H|[H|[H|[H|[H|H]]]]]; try discriminate;
+        apply (list_eqb_spec N.eqb N.eqb_eq) in H; subst k; reflexivity. }
+    rewrite escape_tag_set, (esc_plain _ _ Q) in E. congruence.
+Qed.
+
+Lemma tag_key_seg kv : tagpair_ok kv = true -> tag_key (seg_of kv) = escape_tag (fst kv).
+Proof.
+  destruct kv as [k v]. unfold tagpair_ok, seg_of, tag_key. cbn [fst snd]. intro H.
+  apply andb_true_iff in H as [H Sv]. apply andb_true_iff in H as [H Sk]. apply andb_true_iff in H as [NEk NEv].
+  assert (NEk' : k <> []) by (destruct k; [discriminate|discriminate]).
+  destruct (esc_tag_head k NEk') as [k0 [kw [Ek Ck]]].
+  pose proof (pclean_esc is_tag_stop eq_refl k 0) as Pk. rewrite <- escape_tag_set, Ek in Pk.
+  cbn [pclean] in Pk. apply andb_true_iff in Pk as [_ Pk].
+  assert (Pk' : pclean (N.eqb EQ) k0 kw = true).
+  { eapply pclean_mono; [|exact Pk]. intros c Hc. apply N.eqb_eq in Hc. subst. reflexivity. }
+  pose proof (last_esc is_tag_stop eq_refl k 0 Sk NEk') as Lk. rewrite <- escape_tag_set, Ek, last_cons in Lk.
+  assert (C0 : (k0 =? EQ) = false).
+  { unfold is_tag_stop in Ck. apply orb_false_iff in Ck as [_ Ck]. exact Ck. }
+  rewrite Ek. cbn [app]. rewrite (scan_to_first EQ k0 _ C0).
+  destruct (scan_to_loop_tok EQ kw k0 (escape_tag v) Pk' Lk) as [I1 _]. rewrite I1. reflexivity.
+Qed.
+
+Lemma first_pass_of_sorted segs : strictly_sorted (map tag_key segs) = true -> first_pass segs = FPSorted.
+Proof.
+  induction segs as [|a r IH]; [reflexivity|]. cbn [map strictly_sorted first_pass].
+  destruct r as [|b r']; [reflexivity|]. cbn [map].
+  destruct (bcompare (tag_key a) (tag_key b)); try discriminate. exact IH.
+Qed.
+
+Lemma tags_ok_parts ts : tags_ok ts = true ->
+  forallb tagpair_ok ts = true /\ key_tags_ok ts = true /\
+  forallb (fun kv => negb (is_reserved (fst kv))) ts = true /\
+  strictly_sorted (map (fun kv => escape_tag (fst kv)) ts) = true.
+Proof.
+  unfold tags_ok, key_tags_ok. intro H. apply andb_true_iff in H as [H S2]. apply andb_true_iff in H as [H _].
+  assert (G : forall kv, In kv ts ->
+     nonempty (fst kv) = true /\ bsl_safe is_tag_stop (fst kv) = true /\
+     nonempty (snd kv) = true /\ bsl_safe is_tag_stop (snd kv) = true /\ is_reserved (fst kv) = false).
+  { rewrite forallb_forall in H. intros kv Hin. specialize (H _ Hin). unfold tagtok_ok in H.
+    rewrite !andb_true_iff in H. destruct H as [[[[A1 A2] A3] [[B1 B2] B3]] R].
+    apply negb_true_iff in R. auto. }
+  split; [|split; [|split; [|exact S2]]]; apply forallb_forall; intros kv Hin;
+    destruct (G kv Hin) as [A1 [A3 [B1 [B3 R]]]].
+  - unfold tagpair_ok. rewrite A1, B1, A3, B3. reflexivity.
+  - rewrite B1, A3, B3. reflexivity.
+  - rewrite R. reflexivity.
+Qed.
+
+Lemma skip_ws_name n l : name_ok n = true -> skip_ws (escape_meas n ++ l) = escape_meas n ++ l.
+Proof.
+  unfold name_ok. intro H. apply andb_true_iff in H as [H _]. apply andb_true_iff in H as [H _].
+  destruct n as [|c t]; [discriminate|]. rewrite escape_meas_set, esc_set_cons.
+  destruct (is_meas_stop c) eqn:E; cbn [app skip_ws]; [reflexivity|].
+  unfold is_ws. unfold is_meas_stop in E. apply orb_false_iff in E as [_ E]. rewrite E.
+  apply negb_true_iff in H. apply orb_false_iff in H as [H H0]. apply orb_false_iff in H as [_ H].
+  rewrite H, H0. reflexivity.
+Qed.
+
+Lemma scan_key_printed n ts rest : name_ok n = true -> tags_ok ts = true ->
+  scan_key (make_key n ts ++ SP :: rest) = Ok (make_key n ts, SP :: rest).
+Proof.
+  intros Hn Ht. destruct (name_ok_key n Hn) as [Hk Se].
+  destruct (tags_ok_parts ts Ht) as [TP [KT [RS SS]]].
+  pose proof Hk as Hk'. unfold key_name_ok in Hk'. apply andb_true_iff in Hk' as [_ Sn].
+  unfold make_key, scan_key. rewrite (unescape_meas_safe n Sn), (hash_key_text ts KT).
+  rewrite <- List.app_assoc, (skip_ws_name n _ Hn).
+  destruct ts as [|kv r].
+  - cbn [flat_map app]. destruct (scan_meas_tok n rest Hk) as [_ [M _]]. rewrite M, List.app_nil_r. reflexivity.
+  - rewrite (flat_map_tag_text (kv :: r) ltac:(discriminate)). cbn [app].
+    destruct (scan_meas_tok n (tags_body (kv :: r) ++ SP :: rest) Hk) as [M _]. rewrite M.
+    rewrite (scan_tags_all (kv :: r) ltac:(discriminate) TP 0 rest).
+    assert (TK : map tag_key (map seg_of (kv :: r)) = map (fun kv => escape_tag (fst kv)) (kv :: r)).
+    { rewrite map_map. apply map_ext_in. intros x Hx. apply tag_key_seg. rewrite forallb_forall in TP. auto. }
+    assert (RES : existsb (fun t => is_reserved (tag_key t)) (map seg_of (kv :: r)) = false).
+    { destruct (existsb _ _) eqn:E; [|reflexivity]. apply existsb_exists in E as [x [Hx Rx]].
+      apply in_map_iff in Hx as [y [<- Hy]]. rewrite forallb_forall in TP, RS.
+      rewrite (tag_key_seg y (TP _ Hy)), is_reserved_escape_tag in Rx.
+      specialize (RS _ Hy). rewrite Rx in RS. discriminate. }
+    rewrite RES. rewrite (first_pass_of_sorted _ ltac:(rewrite TK; exact SS)).
+    unfold build_key. rewrite <- (flat_map_tag_text (kv :: r) ltac:(discriminate)).
+    do 3 f_equal. rewrite !flat_map_concat_map, map_map. reflexivity.
+Qed.
+
+(** ** Decimal integers: FormatInt / ParseInt *)
+Lemma bytes_uint_uint_bytes u : bytes_uint (uint_bytes u) = Some u.
+Proof. induction u; cbn [uint_bytes bytes_uint]; try rewrite IHu; reflexivity. Qed.
+
+Lemma uint_bytes_digits u : forallb is_digit (uint_bytes u) = true.
+Proof. induction u; cbn [uint_bytes forallb]; try rewrite IHu; reflexivity. Qed.
+
+Lemma print_nat_nonempty n : print_nat n <> [].
+Proof.
+  unfold print_nat. destruct n as [|p]; [discriminate|]. cbn [N.to_uint].
+  pose proof (DecimalPos.Unsigned.to_uint_nonnil p) as H. destruct (Pos.to_uint p); [congruence| | | | | | | | | |]; discriminate.
+Qed.
+
+Lemma print_nat_digits n : forallb is_digit (print_nat n) = true.
+Proof. apply uint_bytes_digits. Qed.
+
+Lemma parse_digits_print_nat n : parse_digits (print_nat n) = Some n.
+Proof.
+  unfold parse_digits. pose proof (print_nat_nonempty n) as NE.
+  destruct (print_nat n) eqn:E; [congruence|]. rewrite <- E. unfold print_nat.
+  rewrite bytes_uint_uint_bytes, DecimalN.Unsigned.of_to. reflexivity.
+Qed.
+
+Lemma parse_uint64_print n : n <= MaxUint64 -> parse_uint64 (print_nat n) = Some n.
+Proof. intro H. unfold parse_uint64. rewrite parse_digits_print_nat. apply N.leb_le in H. rewrite H. reflexivity. Qed.
+
+Lemma print_nat_head n : exists c t, print_nat n = c :: t /\ is_digit c = true.
+Proof.
+  pose proof (print_nat_nonempty n) as NE. pose proof (print_nat_digits n) as D.
+  destruct (print_nat n) as [|c t]; [congruence|]. cbn in D. apply andb_true_iff in D as [D _]. eauto.
+Qed.
+
+Lemma digit_not_sign c : is_digit c = true -> (c =? MINUS) = false /\ (c =? PLUS) = false.
+Proof. unfold is_digit, MINUS, PLUS. intro H. lia. Qed.
+
+Lemma parse_int64_print z : (MinInt64 <= z <= MaxInt64)%Z -> parse_int64 (print_int z) = Some z.
+Proof.
+  intro R. assert (RB : ((MinInt64 <=? z)%Z && (z <=? MaxInt64)%Z) = true) by lia.
+  unfold print_int. destruct z as [|p|p].
+  - cbn. reflexivity.
+  - destruct (print_nat_head (Z.to_N (Z.pos p))) as [c [t [E D]]]. destruct (digit_not_sign c D) as [M P].
+    unfold parse_int64. rewrite E, M, P. rewrite <- E, parse_digits_print_nat. cbn [Z.to_N Z.of_N]. rewrite RB. reflexivity.
+  - unfold parse_int64. change (MINUS =? MINUS) with true. cbn iota. rewrite parse_digits_print_nat.
+    cbn [Z.of_N Z.opp]. rewrite RB. reflexivity.
+Qed.
+
+(** ** The timestamp section *)
+Lemma scan_time_loop_digits ds : forallb is_digit ds = true -> forall first, scan_time_loop first ds = Ok (ds, []).
+Proof.
+  induction ds as [|c t IH]; intros D first; [reflexivity|]. cbn [forallb] in D. apply andb_true_iff in D as [D1 D2].
+  cbn [scan_time_loop]. assert (X : (c =? NL) = false /\ (c =? SP) = false /\ (c =? MINUS) = false)
+    by (unfold is_digit, NL, SP, MINUS in *; lia).
+  destruct X as [X1 [X2 X3]]. rewrite X1, X2, X3, D1, andb_false_r. cbn. rewrite (IH D2 false). reflexivity.
+Qed.
+
+Lemma scan_time_print z : scan_time (SP :: print_int z) = Ok (print_int z, []).
+Proof.
+  unfold scan_time. cbn [skip_ws]. unfold is_ws. rewrite N.eqb_refl. cbn [orb].
+  assert (NW : forall c t, (is_digit c = true \/ c = MINUS) -> skip_ws (c :: t) = c :: t).
+  { intros c t H. cbn [skip_ws]. unfold is_ws, is_digit, MINUS, SP, TAB in *.
+    assert (((c =? 32) || (c =? 9) || (c =? 0)) = false) by lia. rewrite H0. reflexivity. }
+  unfold print_int. destruct z as [|p|p].
+  - reflexivity.
+  - destruct (print_nat_head (Z.to_N (Z.pos p))) as [c [t [E D]]]. rewrite E, NW by auto. rewrite <- E.
+    apply scan_time_loop_digits, print_nat_digits.
+  - rewrite NW by auto. cbn [scan_time_loop]. change (MINUS =? NL) with false. change (MINUS =? SP) with false.
+    change (MINUS =? MINUS) with true. cbn [orb andb]. rewrite (scan_time_loop_digits _ (print_nat_digits _) false). reflexivity.
+Qed.
+
+Lemma print_int_nonempty z : print_int z <> [].
+Proof. unfold print_int. destruct z; try apply print_nat_nonempty. discriminate. Qed.
+
+Lemma wrap64_small t : (MinInt64 <= t <= MaxInt64)%Z -> wrap64 t = t.
+Proof. unfold wrap64, MinInt64, MaxInt64. intro H. rewrite Z.mod_small; lia. Qed.
+
+Lemma safe_calc_time_exact t prec :
+  time_ok t = true -> (t mod prec_mult prec = 0)%Z ->
+  safe_calc_time (Z.quot t (prec_mult prec)) prec = Some t /\
+  (MinInt64 <= Z.quot t (prec_mult prec) <= MaxInt64)%Z.
+Proof.
+  intros TO DIV. unfold time_ok, MinNanoTime, MaxNanoTime, MinInt64, MaxInt64 in TO.
+  assert (R : (- 2 ^ 63 + 2 <= t <= 2 ^ 63 - 1 - 1)%Z) by lia.
+  set (m := prec_mult prec) in *.
+  assert (Hm : (m = 1 \/ m = 1000 \/ m = 1000000 \/ m = 1000000000)%Z) by (unfold m; destruct prec; cbn; auto).
+  assert (m0 : (m <> 0)%Z) by lia.
+  assert (EX : (t = m * Z.quot t m)%Z) by (apply Z.quot_exact; [exact m0|apply Z.rem_mod_eq_0; assumption]).
+  set (q := Z.quot t m) in *.
+  assert (QR : (MinInt64 <= q <= MaxInt64)%Z) by (unfold MinInt64, MaxInt64; nia).
+  split; [|exact QR].
+  unfold safe_calc_time, safe_signed_mult. fold m.
+  assert (TOK : time_ok (q * m) = true) by (replace (q * m)%Z with t by lia; unfold time_ok, MinNanoTime, MaxNanoTime, MinInt64, MaxInt64; lia).
+  destruct ((q =? 0)%Z || (m =? 0)%Z || (q =? 1)%Z || (m =? 1)%Z) eqn:E1.
+  - cbn beta iota. rewrite TOK. f_equal. lia.
+  - assert (m1 : (m <> 1)%Z) by lia.
+    assert (E2 : ((q =? MinNanoTime)%Z || (m =? MaxNanoTime)%Z) = false).
+    { unfold MinNanoTime, MaxNanoTime, MinInt64, MaxInt64. apply orb_false_iff. split; apply Z.eqb_neq; nia. }
+    rewrite E2. rewrite wrap64_small by (unfold MinInt64, MaxInt64; nia).
+    assert (E3 : (Z.quot (q * m) m =? q)%Z = true) by (apply Z.eqb_eq; replace (q * m)%Z with t by lia; reflexivity).
+    rewrite E3.
+    cbn beta iota. rewrite TOK. f_equal. lia.
+Qed.
+
+Lemma blen_cons' c l : blen (c :: l) = 1 + blen l.
+Proof. unfold blen. cbn [length]. lia. Qed.
+
+(** ** Field values: text -> typed value *)
+Lemma unescape_sf_escape s : unescape_string_field (escape_string_field s) = s.
+Proof.
+  induction s as [|c t IH]; [reflexivity|]. unfold escape_string_field in *. cbn [flat_map].
+  destruct ((c =? DQ) || (c =? BSL)) eqn:E; cbn [app unescape_string_field].
+  - rewrite N.eqb_refl. rewrite orb_comm in E. rewrite E. f_equal. exact IH.
+  - apply orb_false_iff in E as [_ E]. rewrite E. f_equal. exact IH.
+Qed.
+
+Lemma print_int_head z : exists c t, print_int z = c :: t /\ (is_digit c = true \/ c = MINUS).
+Proof.
+  unfold print_int. destruct z as [|p|p].
+  - destruct (print_nat_head (Z.to_N 0)) as [c [t [E D]]]. eauto.
+  - destruct (print_nat_head (Z.to_N (Z.pos p))) as [c [t [E D]]]. eauto.
+  - eauto.
+Qed.
+
+Lemma last_snoc {A} (l : list A) x d : last (l ++ [x]) d = x.
+Proof. apply last_last. Qed.
+
+Lemma field_value_int z : (MinInt64 <= z <= MaxInt64)%Z -> field_value (print_int z ++ [105]) = VInt z.
+Proof.
+  intro R. destruct (print_int_head z) as [c [t [E H]]]. unfold field_value.
+  rewrite last_snoc, removelast_last, parse_int64_print by exact R.
+  rewrite E. cbn [app]. assert (X : (c =? DQ) = false /\ num_type_start c = true).
+  { unfold num_type_start, is_digit, DQ, MINUS, DOT in *. destruct H as [H| ->]; [lia|split; reflexivity]. }
+  destruct X as [X1 X2]. rewrite X1, X2. reflexivity.
+Qed.
+
+Lemma field_value_uint n : n <= MaxUint64 -> field_value (print_nat n ++ [117]) = VUint n.
+Proof.
+  intro R. destruct (print_nat_head n) as [c [t [E H]]]. unfold field_value.
+  rewrite last_snoc, removelast_last, parse_uint64_print by exact R.
+  rewrite E. cbn [app]. assert (X : (c =? DQ) = false /\ num_type_start c = true).
+  { unfold num_type_start, is_digit, DQ, MINUS, DOT in *. lia. }
+  destruct X as [X1 X2]. rewrite X1, X2. reflexivity.
+Qed.
+
+Lemma field_value_str s : field_value (DQ :: escape_string_field s ++ [DQ]) = VStr s.
+Proof.
+  unfold field_value. rewrite N.eqb_refl. cbn [tl]. rewrite removelast_last, unescape_sf_escape.
+  destruct (escape_string_field s ++ [DQ]) eqn:E; [destruct (escape_string_field s); discriminate|reflexivity].
+Qed.
+
+Lemma field_value_print pf v : value_ok pf v = true -> field_value (print_value pf v) = v.
+Proof.
+  destruct v as [z|n|b|[|]|s| |e]; cbn [value_ok print_value]; intro H; try discriminate.
+  - apply field_value_int. unfold MinInt64, MaxInt64 in *. lia.
+  - apply field_value_uint. apply N.leb_le. exact H.
+  - rewrite !andb_true_iff in H. destruct H as [_ H].
+    destruct (field_value (pf b)); try discriminate. apply N.eqb_eq in H. subst. reflexivity.
+  - reflexivity.
+  - reflexivity.
+  - apply field_value_str.
+Qed.
+
+(** ** walkFields / the FieldIterator on the printed fields *)
+Fixpoint pushks (w : bytes) (r : wres) : wres := match w with [] => r | c :: t => pushk c (pushks t r) end.
+Fixpoint pushvs (w : bytes) (r : wres) : wres := match w with [] => r | c :: t => pushv c (pushvs t r) end.
+
+Lemma pushks_ok w k v ps : pushks w (Ok ((k, v) :: ps)) = Ok ((w ++ k, v) :: ps).
+Proof. induction w as [|c t IH]; [reflexivity|]. cbn [pushks app]. rewrite IH. reflexivity. Qed.
+Lemma pushvs_ok w k v ps : pushvs w (Ok ((k, v) :: ps)) = Ok ((k, w ++ v) :: ps).
+Proof. induction w as [|c t IH]; [reflexivity|]. cbn [pushvs app]. rewrite IH. reflexivity. Qed.
+Lemma pushvs_app a b r : pushvs (a ++ b) r = pushvs a (pushvs b r).
+Proof. induction a as [|x a IH]; [reflexivity|]. cbn [app pushvs]. rewrite IH. reflexivity. Qed.
+
+Definition plain_val (c : N) : bool := negb ((c =? DQ) || (c =? BSL) || (c =? COMMA)).
+
+Lemma split_val_plain klen q : forall w l, forallb plain_val w = true ->
+  split_fields_st klen (WVal q) (w ++ l) = pushvs w (split_fields_st klen (WVal q) l).
+Proof.
+  induction w as [|c t IH]; intros l H; [reflexivity|]. cbn [forallb] in H. apply andb_true_iff in H as [H1 H2].
+  unfold plain_val in H1. apply negb_true_iff in H1. apply orb_false_iff in H1 as [H1 C3].
+  apply orb_false_iff in H1 as [C1 C2].
+  cbn [app split_fields_st pushvs]. rewrite C2, C1, C3. cbn [andb]. rewrite (IH l H2). reflexivity.
+Qed.
+
+Lemma split_val_esf klen : forall s l,
+  split_fields_st klen (WVal true) (escape_string_field s ++ l)
+  = pushvs (escape_string_field s) (split_fields_st klen (WVal true) l).
+Proof.
+  induction s as [|c t IH]; intro l; [reflexivity|]. unfold escape_string_field in *. cbn [flat_map].
+  destruct ((c =? DQ) || (c =? BSL)) eqn:E; rewrite <- List.app_assoc; cbn [app split_fields_st pushvs].
+  - rewrite N.eqb_refl, E. rewrite (IH l). reflexivity.
+  - apply orb_false_iff in E as [E1 E2]. rewrite E2, E1. cbn [negb andb]. rewrite andb_false_r. rewrite (IH l). reflexivity.
+Qed.
+
+(** a value text is passed through by scanFieldValue *)
+Definition val_through (vt : bytes) : Prop :=
+  forall klen l, split_fields_st klen (WVal false) (vt ++ l) = pushvs vt (split_fields_st klen (WVal false) l).
+
+Lemma val_through_plain w : forallb plain_val w = true -> val_through w.
+Proof. intros H klen l. apply split_val_plain. exact H. Qed.
+
+Lemma val_through_str s : val_through (DQ :: escape_string_field s ++ [DQ]).
+Proof.
+  intros klen l. cbn [app split_fields_st pushvs]. change (DQ =? BSL) with false. rewrite N.eqb_refl. cbn [negb].
+  rewrite <- List.app_assoc, split_val_esf, pushvs_app. cbn [app split_fields_st pushvs].
+  change (DQ =? BSL) with false. rewrite N.eqb_refl. reflexivity.
+Qed.
+
+Lemma digits_plain w : forallb is_digit w = true -> forallb plain_val w = true.
+Proof.
+  intro H. rewrite forallb_forall in *. intros c Hc. specialize (H _ Hc).
+  unfold plain_val, is_digit, DQ, BSL, COMMA in *. lia.
+Qed.
+
+Lemma print_int_plain z : forallb plain_val (print_int z) = true.
+Proof.
+  unfold print_int. destruct z; try (apply digits_plain, print_nat_digits).
+  cbn [forallb]. rewrite (digits_plain _ (print_nat_digits _)). reflexivity.
+Qed.
+
+Lemma val_through_print pf v : value_ok pf v = true -> val_through (print_value pf v).
+Proof.
+  destruct v as [z|n|b|[|]|s| |e]; cbn [value_ok print_value]; intro H; try discriminate.
+  - apply val_through_plain. rewrite forallb_app, print_int_plain. reflexivity.
+  - apply val_through_plain. rewrite forallb_app, (digits_plain _ (print_nat_digits _)). reflexivity.
+  - apply val_through_plain. rewrite !andb_true_iff in H. destruct H as [[[_ H] _] _].
+    rewrite forallb_forall in *. intros c Hc. specialize (H _ Hc).
+    unfold plain_val, is_digit, DOT, MINUS, DQ, BSL, COMMA in *. lia.
+  - apply val_through_plain. reflexivity.
+  - apply val_through_plain. reflexivity.
+  - apply val_through_str.
+Qed.
+
+Lemma print_value_nonempty pf v : value_ok pf v = true -> print_value pf v <> [].
+Proof.
+  destruct v as [z|n|b|[|]|s| |e]; cbn [value_ok print_value]; intro H; try discriminate.
+  - destruct (print_int z); discriminate.
+  - destruct (print_nat n); discriminate.
+  - rewrite !andb_true_iff in H. destruct H as [[[[_ H] _] _] _]. destruct (pf b); [discriminate|discriminate].
+Qed.
+
+Lemma split_key klen : forall wk prev n rest,
+  pclean (N.eqb EQ) prev wk = true -> (last wk prev =? BSL) = false -> rest <> [] ->
+  klen + 4 + n + blen wk <= MaxKeyLength ->
+  split_fields_st klen (WKey false prev n) (wk ++ EQ :: rest)
+  = pushks wk (split_fields_st klen (WVal false) rest).
+Proof.
+  induction wk as [|c t IH]; intros prev n rest P L NE B.
+  - cbn [last] in L. cbn [app split_fields_st pushks]. rewrite N.eqb_refl, L. cbn [orb negb andb].
+    destruct rest; [congruence|]. unfold blen in B. cbn [length] in B.
+    assert (X : (MaxKeyLength <? klen + 4 + n) = false) by (apply N.ltb_ge; lia). rewrite X. reflexivity.
+  - cbn [pclean] in P. apply andb_true_iff in P as [P1 P2]. rewrite last_cons in L.
+    cbn [app split_fields_st pushks]. cbn [orb].
+    assert (X : (c =? EQ) && negb (prev =? BSL) = false).
+    { destruct (prev =? BSL); [apply andb_false_r|]. rewrite orb_false_r in P1.
+      apply negb_true_iff in P1. rewrite N.eqb_sym, P1. reflexivity. }
+    rewrite X. rewrite (IH c (n + 1) rest P2 L NE); [reflexivity|].
+    rewrite blen_cons' in B. lia.
+Qed.
+
+Definition ptext (pf : N -> bytes) (kv : bytes * fval) : bytes * bytes :=
+  (escape_string (fst kv), print_value pf (snd kv)).
+
+Definition field_ok (pf : N -> bytes) (klen : N) (kv : bytes * fval) : Prop :=
+  fieldkey_ok (fst kv) = true /\ value_ok pf (snd kv) = true /\
+  klen + 4 + blen (escape_string (fst kv)) <= MaxKeyLength.
+
+Lemma esc_string_head k : k <> [] ->
+  exists c0 w', escape_string k = c0 :: w' /\ is_esc_char c0 = false.
+Proof.
+  intro NE. destruct k as [|c t]; [congruence|]. rewrite escape_string_set, esc_set_cons.
+  destruct (is_esc_char c) eqn:E; cbn; eexists _, _; (split; [reflexivity|]); [reflexivity|exact E].
+Qed.
+
+Lemma split_one_field pf klen kv l : field_ok pf klen kv ->
+  split_fields_st klen (WKey true 0 0) (escape_string (fst kv) ++ EQ :: print_value pf (snd kv) ++ l)
+  = pushks (escape_string (fst kv)) (pushvs (print_value pf (snd kv)) (split_fields_st klen (WVal false) l)).
+Proof.
+  destruct kv as [k v]. unfold field_ok, fieldkey_ok. cbn [fst snd]. intros [HK [HV B]].
+  apply andb_true_iff in HK as [HK Sk]. apply andb_true_iff in HK as [NEk _].
+  assert (NEk' : k <> []) by (destruct k; [discriminate|discriminate]).
+  destruct (esc_string_head k NEk') as [c0 [w' [E C0]]].
+  pose proof (pclean_esc is_esc_char eq_refl k 0) as P. rewrite <- escape_string_set, E in P.
+  cbn [pclean] in P. apply andb_true_iff in P as [_ P].
+  assert (P' : pclean (N.eqb EQ) c0 w' = true).
+  { eapply pclean_mono; [|exact P]. intros c Hc. apply N.eqb_eq in Hc. subst. reflexivity. }
+  pose proof (last_esc is_esc_char eq_refl k 0 Sk NEk') as L. rewrite <- escape_string_set, E, last_cons in L.
+  assert (C0' : (c0 =? EQ) = false).
+  { unfold is_esc_char in C0. apply orb_false_iff in C0 as [_ C0]. exact C0. }
+  rewrite E in *. cbn [app split_fields_st pushks]. rewrite C0'. cbn [andb].
+  pose proof (print_value_nonempty pf v HV) as NEv.
+  rewrite (split_key klen w' c0 (0 + 1) (print_value pf v ++ l) P' L).
+  - rewrite (val_through_print pf v HV klen l). reflexivity.
+  - destruct (print_value pf v); [congruence|discriminate].
+  - rewrite blen_cons' in B. lia.
+Qed.
+
+Lemma print_fields_cons pf kv r : r <> [] ->
+  print_fields pf (kv :: r) = escape_string (fst kv) ++ EQ :: print_value pf (snd kv) ++ COMMA :: print_fields pf r.
+Proof. destruct kv as [k v]. destruct r; [congruence|reflexivity]. Qed.
+
+Lemma print_fields_one pf kv :
+  print_fields pf [kv] = escape_string (fst kv) ++ EQ :: print_value pf (snd kv) ++ [].
+Proof. destruct kv as [k v]. cbn. rewrite List.app_nil_r. reflexivity. Qed.
+
+Lemma print_fields_nonempty pf fs : fs <> [] -> print_fields pf fs <> [].
+Proof.
+  destruct fs as [|[k v] r]; [congruence|]. intros _. destruct r.
+  - cbn. destruct (escape_string k); discriminate.
+  - cbn. destruct (escape_string k); discriminate.
+Qed.
+
+Lemma split_fields_st_printed pf klen fs : fs <> [] -> Forall (field_ok pf klen) fs ->
+  split_fields_st klen (WKey true 0 0) (print_fields pf fs) = Ok (map (ptext pf) fs).
+Proof.
+  induction fs as [|kv r IH]; [congruence|]. intros _ H. inversion H as [|? ? H1 H2]; subst.
+  destruct r as [|kv' r'].
+  - rewrite print_fields_one, (split_one_field pf klen kv [] H1). cbn [split_fields_st].
+    rewrite pushvs_ok, pushks_ok, !List.app_nil_r. reflexivity.
+  - rewrite print_fields_cons by discriminate. rewrite (split_one_field pf klen kv _ H1).
+    pose proof (print_fields_nonempty pf (kv' :: r') ltac:(discriminate)) as NE.
+    cbn [split_fields_st]. change (COMMA =? BSL) with false. change (COMMA =? DQ) with false.
+    rewrite N.eqb_refl. cbn [negb andb].
+    specialize (IH ltac:(discriminate) H2).
+    destruct (print_fields pf (kv' :: r')) as [|x xs] eqn:E; [congruence|].
+    rewrite IH. cbn [newpair]. rewrite pushvs_ok, pushks_ok, !List.app_nil_r. reflexivity.
+Qed.
+
+Lemma split_fields_printed pf klen fs : fs <> [] -> Forall (field_ok pf klen) fs ->
+  split_fields klen (print_fields pf fs) = Ok (map (ptext pf) fs).
+Proof.
+  intros NE H. unfold split_fields. pose proof (print_fields_nonempty pf fs NE) as NE'.
+  destruct (print_fields pf fs) eqn:E; [congruence|]. rewrite <- E. apply split_fields_st_printed; auto.
+Qed.
+
+Lemma field_ok_klen0 pf klen kv : field_ok pf klen kv -> field_ok pf 0 kv.
+Proof. unfold field_ok. intros [A [B C]]. repeat split; auto. lia. Qed.
+
+Lemma fields_of_printed pf klen fs : fs <> [] -> Forall (field_ok pf klen) fs ->
+  fields_of (print_fields pf fs) = fs.
+Proof.
+  intros NE H. unfold fields_of.
+  rewrite (split_fields_printed pf 0 fs NE); [|eapply Forall_impl; [|exact H]; intros; eapply field_ok_klen0; eauto].
+  rewrite map_map. rewrite <- (map_id fs) at 2. apply map_ext_in. intros [k v] Hin.
+  rewrite Forall_forall in H. destruct (H _ Hin) as [HK [HV _]]. cbn [fst snd] in *. unfold ptext. cbn [fst snd].
+  unfold fieldkey_ok in HK. apply andb_true_iff in HK as [_ Sk].
+  rewrite escape_string_set, (unescape4_esc is_esc_char (fun c H => H) k Sk), (field_value_print pf v HV). reflexivity.
+Qed.
+
+(** ** scanFields on the printed fields *)
+Fixpoint fconss (w : bytes) (r : fres) : fres := match w with [] => r | c :: t => fcons c (fconss t r) end.
+Lemma fconss_ok w a rest : fconss w (Ok (a, rest)) = Ok (w ++ a, rest).
+Proof. induction w as [|c t IH]; [reflexivity|]. cbn [fconss app]. rewrite IH. reflexivity. Qed.
+Lemma fconss_app a b r : fconss (a ++ b) r = fconss a (fconss b r).
+Proof. induction a as [|x a IH]; [reflexivity|]. cbn [app fconss]. rewrite IH. reflexivity. Qed.
+
+Lemma sf_step_bsl q eq cm p1 p2 a t2 :
+  scan_fields_st FNorm q eq cm p1 p2 (BSL :: a :: t2) = fcons BSL (fcons a (scan_fields_st FNorm q eq cm a BSL t2)).
+Proof. reflexivity. Qed.
+
+Lemma sf_step_other c t q eq cm p1 p2 :
+  (c =? BSL) = false -> ((c =? DQ) && (cm <? eq)) = false -> ((c =? EQ) && negb q) = false ->
+  ((c =? COMMA) && negb q) = false -> ((c =? SP) && negb q) = false ->
+  scan_fields_st FNorm q eq cm p1 p2 (c :: t) = fcons c (scan_fields_st FNorm q eq cm c p1 t).
+Proof. intros B D E C S. cbn [scan_fields_st]. rewrite B, D, E, C, S. reflexivity. Qed.
+
+Definition ok_prev (p1 p2 : N) : bool := negb (((p1 =? SP) || (p1 =? COMMA)) && negb (p2 =? BSL)).
+
+Lemma esc_char_cases c : is_esc_char c = false ->
+  (c =? COMMA) = false /\ (c =? DQ) = false /\ (c =? SP) = false /\ (c =? EQ) = false.
+Proof. unfold is_esc_char. intro H. repeat (apply orb_false_iff in H as [H ?]). auto. Qed.
+
+(** an escaped field key in key position (equals = commas) *)
+Lemma sf_key : forall k, bsl_safe is_esc_char k = true -> forall eq p1 p2 l,
+  (k = [] -> ok_prev p1 p2 = true) ->
+  exists p1' p2', ok_prev p1' p2' = true /\
+    scan_fields_st FNorm false eq eq p1 p2 (escape_string k ++ l)
+    = fconss (escape_string k) (scan_fields_st FNorm false eq eq p1' p2' l).
+Proof.
+  induction k as [k IH] using list_len_ind. intros S eq p1 p2 l OK.
+  destruct k as [|c t]; [exists p1, p2; split; [auto|reflexivity]|].
+  pose proof (bsl_safe_tail _ _ _ S) as St. rewrite escape_string_set in *. rewrite esc_set_cons.
+  destruct (is_esc_char c) eqn:Ec; cbn [app].
+  - (* \c *)
+    destruct (IH t ltac:(cbn; lia) St eq c BSL l) as [p1' [p2' [O E]]].
+    { intros _. unfold ok_prev. rewrite N.eqb_refl. cbn. rewrite andb_false_r. reflexivity. }
+    exists p1', p2'. split; [exact O|]. rewrite sf_step_bsl. rewrite escape_string_set in E. rewrite E. reflexivity.
+  - destruct (esc_char_cases c Ec) as [C1 [C2 [C3 C4]]]. destruct (c =? BSL) eqn:B.
+    + (* an original backslash: followed by a non-escapable byte, consumed with it *)
+      apply N.eqb_eq in B. subst c. cbn [bsl_safe] in S. change (BSL =? BSL) with true in S. cbn iota in S.
+      destruct t as [|a t']; [discriminate|]. apply andb_true_iff in S as [Sa _]. apply negb_true_iff in Sa.
+      pose proof (bsl_safe_tail _ _ _ St) as St'.
+      rewrite esc_set_cons, Sa. cbn [app].
+      destruct (IH t' ltac:(cbn; lia) St' eq a BSL l) as [p1' [p2' [O E]]].
+      { intros _. unfold ok_prev. rewrite N.eqb_refl. cbn. rewrite andb_false_r. reflexivity. }
+      exists p1', p2'. split; [exact O|]. rewrite sf_step_bsl. rewrite escape_string_set in E. rewrite E. reflexivity.
+    + destruct (IH t ltac:(cbn; lia) St eq c p1 l) as [p1' [p2' [O E]]].
+      { intros _. unfold ok_prev. rewrite C3, C1. reflexivity. }
+      exists p1', p2'. split; [exact O|].
+      rewrite sf_step_other; [|exact B|rewrite C2; reflexivity|rewrite C4; reflexivity|rewrite C1; reflexivity|rewrite C3; reflexivity].
+      rewrite escape_string_set in E. rewrite E. reflexivity.
+Qed.
+
+(** inside scanNumber / scanBoolean the look-back bytes are not used *)
+Lemma sf_tok_indep : forall l isnum racc q eq cm p1 p2 p1' p2',
+  scan_fields_st (FTok isnum racc) q eq cm p1 p2 l = scan_fields_st (FTok isnum racc) q eq cm p1' p2' l.
+Proof.
+  induction l as [|c t IH]; intros; [reflexivity|]. cbn [scan_fields_st].
+  destruct ((c =? COMMA) || (c =? SP)); [reflexivity|]. f_equal. apply IH.
+Qed.
+
+Definition tok_char (c : N) : bool := negb ((c =? COMMA) || (c =? SP)).
+
+Lemma sf_tok : forall w isnum racc eq cm p1 p2 l, forallb tok_char w = true ->
+  scan_fields_st (FTok isnum racc) false eq cm p1 p2 (w ++ l)
+  = fconss w (scan_fields_st (FTok isnum (rev w ++ racc)) false eq cm p1 p2 l).
+Proof.
+  induction w as [|c t IH]; intros isnum racc eq cm p1 p2 l H; [reflexivity|].
+  cbn [forallb] in H. apply andb_true_iff in H as [H1 H2]. unfold tok_char in H1. apply negb_true_iff in H1.
+  cbn [app scan_fields_st fconss]. rewrite H1. rewrite (IH isnum (c :: racc) eq cm c p1 l H2).
+  cbn [rev]. rewrite <- List.app_assoc. cbn [app]. f_equal. f_equal. apply sf_tok_indep.
+Qed.
+
+(** what follows a value: end of input, a space (end of the fields), or a comma (next field) *)
+Inductive after_val (eq : N) : bytes -> fres -> Prop :=
+| AV_end : after_val eq [] (fields_fin false (eq + 1) eq [])
+| AV_sp l : after_val eq (SP :: l) (fields_fin false (eq + 1) eq (SP :: l))
+| AV_comma l pX : after_val eq (COMMA :: l) (fcons COMMA (scan_fields_st FNorm false (eq + 1) (eq + 1) COMMA pX l)).
+
+Definition sf_val (vt : bytes) : Prop :=
+  forall eq p1 p2 l, ok_prev p1 p2 = true -> (l = [] \/ (exists l', l = SP :: l') \/ (exists l', l = COMMA :: l')) ->
+  exists r, after_val eq l r /\
+    scan_fields_st FNorm false eq eq p1 p2 (EQ :: vt ++ l) = fcons EQ (fconss vt r).
+
+Lemma ok_prev_eq p1 p2 : ok_prev p1 p2 = true ->
+  ((p1 =? SP) && negb (p2 =? BSL)) = false /\ ((p1 =? COMMA) && negb (p2 =? BSL)) = false.
+Proof.
+  unfold ok_prev. intro H. apply negb_true_iff in H.
+  destruct (p1 =? SP), (p1 =? COMMA), (p2 =? BSL); cbn in *; auto; discriminate.
+Qed.
+
+(** tokens (numbers and booleans) *)
+Lemma sf_val_token vt isnum :
+  vt <> [] -> forallb tok_char vt = true -> check_token isnum vt = Ok tt ->
+  (match vt with c :: _ => num_start c = isnum /\ (c =? DQ) = false | [] => False end) ->
+  sf_val vt.
+Proof.
+  intros NE TC CK HD eq p1 p2 l OK TL. destruct (ok_prev_eq p1 p2 OK) as [O1 O2].
+  destruct vt as [|n vt']; [congruence|]. destruct HD as [NS ND].
+  pose proof TC as TC'. cbn [forallb] in TC'. apply andb_true_iff in TC' as [Tn _].
+  unfold tok_char in Tn. apply negb_true_iff in Tn.
+  assert (START : scan_fields_st FNorm false eq eq p1 p2 (EQ :: (n :: vt') ++ l)
+          = fcons EQ (scan_fields_st (FTok isnum []) false (eq + 1) eq EQ p1 ((n :: vt') ++ l))).
+  { cbn [app scan_fields_st]. change (EQ =? BSL) with false. change (EQ =? DQ) with false.
+    rewrite N.eqb_refl. cbn [andb negb]. rewrite O1, O2, Tn, NS, ND. destruct isnum; reflexivity. }
+  rewrite START, (sf_tok (n :: vt') isnum [] (eq + 1) eq EQ p1 l TC). rewrite List.app_nil_r.
+  assert (RV : frev (rev (n :: vt')) = n :: vt') by (rewrite frev_rev; apply rev_involutive).
+  destruct TL as [->|[[l' ->]|[l' ->]]].
+  - eexists. split; [apply AV_end|]. cbn [scan_fields_st]. rewrite RV, CK. reflexivity.
+  - eexists. split; [apply AV_sp|]. cbn [scan_fields_st]. change (SP =? COMMA) with false. rewrite N.eqb_refl.
+    cbn [orb]. rewrite RV, CK. reflexivity.
+  - eexists. split; [apply (AV_comma eq l' (hd 0 (rev (n :: vt'))))|]. cbn [scan_fields_st]. rewrite N.eqb_refl.
+    cbn [orb]. rewrite RV, CK. reflexivity.
+Qed.
+
+(** quoted strings *)
+Lemma sf_esf : forall s eq cm p1 p2 l, exists p1' p2',
+  scan_fields_st FNorm true eq cm p1 p2 (escape_string_field s ++ l)
+  = fconss (escape_string_field s) (scan_fields_st FNorm true eq cm p1' p2' l).
+Proof.
+  induction s as [|c t IH]; intros eq cm p1 p2 l; [exists p1, p2; reflexivity|].
+  unfold escape_string_field in *. cbn [flat_map].
+  destruct ((c =? DQ) || (c =? BSL)) eqn:E; rewrite <- List.app_assoc; cbn [app].
+  - destruct (IH eq cm c BSL l) as [p1' [p2' H]]. exists p1', p2'. rewrite sf_step_bsl, H. reflexivity.
+  - apply orb_false_iff in E as [E1 E2]. destruct (IH eq cm c p1 l) as [p1' [p2' H]]. exists p1', p2'.
+    rewrite sf_step_other; [rewrite H; reflexivity|exact E2|rewrite E1; reflexivity| | |]; apply andb_false_r.
+Qed.
+
+Lemma sf_val_str s : sf_val (DQ :: escape_string_field s ++ [DQ]).
+Proof.
+  intros eq p1 p2 l OK TL. destruct (ok_prev_eq p1 p2 OK) as [O1 O2].
+  assert (LT : (eq <? eq + 1) = true) by (apply N.ltb_lt; lia).
+  assert (START : scan_fields_st FNorm false eq eq p1 p2 (EQ :: (DQ :: escape_string_field s ++ [DQ]) ++ l)
+          = fcons EQ (fcons DQ (scan_fields_st FNorm true (eq + 1) eq DQ EQ (escape_string_field s ++ DQ :: l)))).
+  { cbn [app scan_fields_st]. change (EQ =? BSL) with false. change (EQ =? DQ) with false.
+    rewrite N.eqb_refl. cbn [andb negb]. rewrite O1, O2.
+    change (DQ =? COMMA) with false. change (DQ =? SP) with false. change (num_start DQ) with false.
+    rewrite N.eqb_refl. cbn [orb negb]. change (DQ =? BSL) with false. rewrite LT. cbn [andb].
+    rewrite <- List.app_assoc. reflexivity. }
+  rewrite START. destruct (sf_esf s (eq + 1) eq DQ EQ (DQ :: l)) as [p1' [p2' E]]. rewrite E.
+  assert (CLOSE : scan_fields_st FNorm true (eq + 1) eq p1' p2' (DQ :: l)
+          = fcons DQ (scan_fields_st FNorm false (eq + 1) eq DQ p1' l)).
+  { cbn [scan_fields_st]. change (DQ =? BSL) with false. rewrite N.eqb_refl, LT. reflexivity. }
+  rewrite CLOSE.
+  assert (SHAPE : forall r, fcons EQ (fcons DQ (fconss (escape_string_field s) (fcons DQ r)))
+                  = fcons EQ (fconss (DQ :: escape_string_field s ++ [DQ]) r)).
+  { intro r. cbn [fconss]. rewrite fconss_app. reflexivity. }
+  destruct TL as [->|[[l' ->]|[l' ->]]].
+  - eexists. split; [apply AV_end|]. rewrite <- SHAPE. reflexivity.
+  - eexists. split; [apply AV_sp|]. rewrite <- SHAPE. reflexivity.
+  - eexists. split; [apply (AV_comma eq l' DQ)|]. rewrite <- SHAPE. reflexivity.
+Qed.
+
+(** scanNumber accepts printed integers *)
+Lemma num_loop_digits : forall ds first prev isI isU dc sc rest,
+  ds <> [] -> forallb is_digit ds = true ->
+  num_loop first prev isI isU dc sc (ds ++ rest) = num_loop false (last ds prev) isI isU dc sc rest.
+Proof.
+  induction ds as [|c t IH]; intros first prev isI isU dc sc rest NE D; [congruence|].
+  cbn [forallb] in D. apply andb_true_iff in D as [D1 D2].
+  assert (X : (c =? 105) = false /\ (c =? 117) = false /\ (c =? DOT) = false /\ is_e c = false /\
+              (c =? PLUS) = false /\ (c =? MINUS) = false /\ is_numeric c = true).
+  { unfold is_e, is_numeric, is_digit, DOT, PLUS, MINUS in *. lia. }
+  destruct X as [X1 [X2 [X3 [X4 [X5 [X6 X7]]]]]].
+  cbn [app num_loop]. rewrite X1, X2, X3, X4, X5, X6, X7. cbn [andb orb negb]. rewrite andb_false_r, orb_false_r.
+  destruct t as [|c' t']; [reflexivity|]. rewrite (IH false c isI isU dc sc rest ltac:(discriminate) D2).
+  rewrite !last_cons. reflexivity.
+Qed.
+
+Lemma print_nat_len n : (0 < length (print_nat n))%nat.
+Proof. pose proof (print_nat_nonempty n). destruct (print_nat n); [congruence|cbn; lia]. Qed.
+
+Ltac nd_nonzero :=
+  match goal with |- context [(?e =? 0)%Z] =>
+    let HZ := fresh "HZ" in assert (HZ : (e =? 0)%Z = false) by lia; rewrite HZ end.
+
+Lemma check_number_int z : (MinInt64 <= z <= MaxInt64)%Z -> check_number (print_int z ++ [105]) = Ok tt.
+Proof.
+  intro R. unfold check_number.
+  assert (BODY : removelast (print_int z ++ [105]) = print_int z) by apply removelast_last.
+  assert (LAST : last (print_int z ++ [105]) 0 = 105) by apply last_snoc.
+  rewrite BODY, LAST, (parse_int64_print z R).
+  assert (LOOP : forall ds first prev, ds <> [] -> forallb is_digit ds = true ->
+            num_loop first prev false false false false (ds ++ [105]) = Some (true, false, false, false)).
+  { intros ds first prev NE D. rewrite (num_loop_digits ds first prev false false false false [105] NE D). reflexivity. }
+  unfold print_int. destruct z as [|p|p].
+  - reflexivity.
+  - set (X := Z.to_N (Z.pos p)). destruct (print_nat_head X) as [c [t [E D]]]. destruct (digit_not_sign c D) as [M _].
+    pose proof (print_nat_len X) as LP.
+    assert (HEAD : match print_nat X ++ [105] with c :: _ => c =? MINUS | [] => false end = false) by (rewrite E; exact M).
+    rewrite HEAD.
+    assert (R2 : match print_nat X ++ [105] with
+                 | c :: t => if c =? MINUS then num_loop false c false false false false t
+                             else num_loop true EQ false false false false (print_nat X ++ [105])
+                 | [] => Some (false, false, false, false) end = Some (true, false, false, false)).
+    { rewrite E at 1. cbn [app]. rewrite M. apply LOOP; [apply print_nat_nonempty|apply print_nat_digits]. }
+    rewrite R2. cbn [orb andb]. rewrite app_length. cbn [length]. nd_nonzero.
+    change (105 =? 105) with true. cbn [negb]. destruct (19 <=? blen (print_nat X)); reflexivity.
+  - set (X := N.pos p). pose proof (print_nat_len X) as LP.
+    cbn [app]. change (MINUS =? MINUS) with true. cbn iota.
+    rewrite (LOOP _ false MINUS (print_nat_nonempty _) (print_nat_digits _)). cbn [orb andb].
+    cbn [length]. rewrite app_length. cbn [length]. nd_nonzero.
+    change (105 =? 105) with true. cbn [negb]. destruct (19 <=? blen (MINUS :: print_nat X)); reflexivity.
+Qed.
+
+Lemma check_number_uint n : n <= MaxUint64 -> check_number (print_nat n ++ [117]) = Ok tt.
+Proof.
+  intro R. unfold check_number.
+  rewrite removelast_last, last_snoc, (parse_uint64_print n R).
+  destruct (print_nat_head n) as [c [t [E D]]]. destruct (digit_not_sign c D) as [M _].
+  pose proof (print_nat_len n) as LP.
+  assert (HEAD : match print_nat n ++ [117] with c :: _ => c =? MINUS | [] => false end = false) by (rewrite E; exact M).
+  rewrite HEAD.
+  assert (R2 : match print_nat n ++ [117] with
+               | c :: t => if c =? MINUS then num_loop false c false false false false t
+                           else num_loop true EQ false false false false (print_nat n ++ [117])
+               | [] => Some (false, false, false, false) end = Some (false, true, false, false)).
+  { rewrite E at 1. cbn [app]. rewrite M.
+    rewrite (num_loop_digits _ true EQ false false false false [117] (print_nat_nonempty _) (print_nat_digits _)).
+    reflexivity. }
+  rewrite R2. cbn [orb andb]. rewrite app_length. cbn [length]. nd_nonzero.
+  change (117 =? 117) with true. cbn [negb]. destruct (20 <=? blen (print_nat n)); reflexivity.
+Qed.
+
+Lemma digits_tok w : forallb is_digit w = true -> forallb tok_char w = true.
+Proof.
+  intro H. rewrite forallb_forall in *. intros c Hc. specialize (H _ Hc).
+  unfold tok_char, is_digit, COMMA, SP in *. lia.
+Qed.
+
+Lemma print_int_tok z : forallb tok_char (print_int z) = true.
+Proof.
+  unfold print_int. destruct z; try (apply digits_tok, print_nat_digits).
+  cbn [forallb]. rewrite (digits_tok _ (print_nat_digits _)). reflexivity.
+Qed.
+
+Lemma sf_val_print pf v : value_ok pf v = true -> sf_val (print_value pf v).
+Proof.
+  destruct v as [z|n|b|[|]|s| |e]; cbn [value_ok print_value]; intro H; try discriminate.
+  - assert (R : (MinInt64 <= z <= MaxInt64)%Z) by (unfold MinInt64, MaxInt64 in *; lia).
+    apply (sf_val_token _ true).
+    + destruct (print_int z); discriminate.
+    + rewrite forallb_app, print_int_tok. reflexivity.
+    + apply check_number_int. exact R.
+    + destruct (print_int_head z) as [c [t [E HD]]]. rewrite E. cbn [app].
+      unfold num_start, is_numeric, is_digit, MINUS, DOT, DQ in *. destruct HD as [HD| ->]; [lia|split; reflexivity].
+  - apply N.leb_le in H. apply (sf_val_token _ true).
+    + destruct (print_nat n); discriminate.
+    + rewrite forallb_app, (digits_tok _ (print_nat_digits _)). reflexivity.
+    + apply check_number_uint. exact H.
+    + destruct (print_nat_head n) as [c [t [E HD]]]. rewrite E. cbn [app].
+      unfold num_start, is_numeric, is_digit, MINUS, DOT, DQ in *. lia.
+  - rewrite !andb_true_iff in H. destruct H as [[[[_ HD] CH] CK] _].
+    apply (sf_val_token _ true).
+    + destruct (pf b); [discriminate|discriminate].
+    + rewrite forallb_forall in *. intros c Hc. specialize (CH _ Hc).
+      unfold tok_char, is_digit, DOT, MINUS, COMMA, SP in *. lia.
+    + cbn [check_token]. destruct (check_number (pf b)) as [[]|]; [reflexivity|discriminate].
+    + destruct (pf b) as [|c t]; [discriminate|]. unfold num_start. split.
+      * apply orb_true_iff in HD as [HD|HD]; rewrite HD; cbn; rewrite ?orb_true_r; reflexivity.
+      * unfold is_numeric, is_digit, DOT, MINUS, DQ in *. lia.
+  - apply (sf_val_token _ false); try reflexivity; [discriminate|split; reflexivity].
+  - apply (sf_val_token _ false); try reflexivity; [discriminate|split; reflexivity].
+  - apply sf_val_str.
+Qed.
+
+Definition fkv_ok (pf : N -> bytes) (kv : bytes * fval) : Prop :=
+  fieldkey_ok (fst kv) = true /\ value_ok pf (snd kv) = true.
+
+Lemma sf_fields pf : forall fs, fs <> [] -> Forall (fkv_ok pf) fs ->
+  forall eq p1 p2 tail, (tail = [] \/ exists l', tail = SP :: l') ->
+  scan_fields_st FNorm false eq eq p1 p2 (print_fields pf fs ++ tail)
+  = fconss (print_fields pf fs)
+      (fields_fin false (eq + N.of_nat (length fs)) (eq + N.of_nat (length fs) - 1) tail).
+Proof.
+  induction fs as [|kv r IH]; [congruence|]. intros _ H eq p1 p2 tail TL.
+  inversion H as [|? ? [HK HV] H2]; subst.
+  pose proof HK as HK'. unfold fieldkey_ok in HK'. apply andb_true_iff in HK' as [HK' Sk].
+  apply andb_true_iff in HK' as [NEk _].
+  assert (NEk' : fst kv <> []) by (destruct (fst kv); [discriminate|discriminate]).
+  destruct r as [|kv' r'].
+  - rewrite print_fields_one, List.app_nil_r. rewrite <- List.app_assoc. cbn [app].
+    destruct (sf_key (fst kv) Sk eq p1 p2 (EQ :: print_value pf (snd kv) ++ tail) ltac:(congruence)) as [p1' [p2' [O E]]].
+    rewrite E.
+    destruct (sf_val_print pf (snd kv) HV eq p1' p2' tail O) as [r0 [AV EV]].
+    { destruct TL as [->|[l' ->]]; eauto. }
+    rewrite EV. rewrite fconss_app. cbn [fconss]. do 3 f_equal.
+    cbn [length]. replace (eq + N.of_nat 1) with (eq + 1) by lia. replace (eq + 1 - 1) with eq by lia.
+    destruct TL as [->|[l' ->]]; inversion AV; subst; reflexivity.
+  - rewrite print_fields_cons by discriminate.
+    set (R := print_fields pf (kv' :: r')) in *.
+    rewrite <- !List.app_assoc. cbn [app]. rewrite <- !List.app_assoc. cbn [app].
+    destruct (sf_key (fst kv) Sk eq p1 p2 (EQ :: print_value pf (snd kv) ++ COMMA :: R ++ tail) ltac:(congruence)) as [p1' [p2' [O E]]].
+    rewrite E.
+    destruct (sf_val_print pf (snd kv) HV eq p1' p2' (COMMA :: R ++ tail) O) as [r0 [AV EV]]; [eauto|].
+    rewrite EV. inversion AV; subst.
+    rewrite (IH ltac:(discriminate) H2 (eq + 1) COMMA pX tail TL).
+    rewrite fconss_app. cbn [fconss]. f_equal. f_equal. rewrite fconss_app. cbn [fconss]. f_equal. f_equal. f_equal.
+    cbn [length]. rewrite !Nat2N.inj_succ. f_equal; lia.
+Qed.
+
+Lemma first_key_not_ws pf fs l : fs <> [] -> fields_ok pf fs = true ->
+  skip_ws (print_fields pf fs ++ l) = print_fields pf fs ++ l.
+Proof.
+  intros NE H. unfold fields_ok in H. rewrite !andb_true_iff in H. destruct H as [[[_ H] _] FW].
+  destruct fs as [|[k v] r]; [congruence|]. cbn [forallb fst snd] in H. apply andb_true_iff in H as [H _].
+  apply andb_true_iff in H as [HK _]. unfold fieldkey_ok in HK. apply andb_true_iff in HK as [HK _].
+  apply andb_true_iff in HK as [NEk _]. destruct k as [|c t]; [discriminate|].
+  assert (HD : exists c0 w, print_fields pf ((c :: t, v) :: r) ++ l = c0 :: w /\ is_ws c0 = false).
+  { assert (E : exists w, print_fields pf ((c :: t, v) :: r) = escape_string (c :: t) ++ w).
+    { destruct r; cbn [print_fields]; eauto. }
+    destruct E as [w ->]. rewrite escape_string_set, esc_set_cons.
+    destruct (is_esc_char c) eqn:Ec; cbn [app]; eexists _, _; (split; [reflexivity|]); [reflexivity|].
+    destruct (esc_char_cases c Ec) as [_ [_ [C3 _]]]. unfold is_ws. rewrite C3.
+    apply negb_true_iff in FW. exact FW. }
+  destruct HD as [c0 [w [E W]]].
+  assert (G : forall x : bytes, x = c0 :: w -> skip_ws x = x).
+  { intros x ->. cbn [skip_ws]. rewrite W. reflexivity. }
+  apply G. exact E.
+Qed.
+
+Lemma fields_ok_fkv pf fs : fields_ok pf fs = true -> fs <> [] /\ Forall (fkv_ok pf) fs.
+Proof.
+  unfold fields_ok. rewrite !andb_true_iff. intros [[[NE H] _] _].
+  split; [destruct fs; [discriminate|discriminate]|].
+  apply Forall_forall. rewrite forallb_forall in H. intros kv Hin. specialize (H _ Hin).
+  apply andb_true_iff in H. exact H.
+Qed.
+
+Lemma scan_fields_printed pf fs tail : fields_ok pf fs = true ->
+  (tail = [] \/ exists l', tail = SP :: l') ->
+  scan_fields (SP :: print_fields pf fs ++ tail) = Ok (print_fields pf fs, tail).
+Proof.
+  intros H TL. destruct (fields_ok_fkv pf fs H) as [NE FA].
+  unfold scan_fields. cbn [skip_ws skip_ws_last]. unfold is_ws at 1 2. rewrite N.eqb_refl. cbn [orb].
+  rewrite (first_key_not_ws pf fs tail NE H).
+  rewrite (sf_fields pf fs NE FA 0 _ 0 tail TL).
+  assert (LP : (0 < length fs)%nat) by (destruct fs; [congruence|cbn; lia]).
+  unfold fields_fin.
+  assert (X : ((0 + N.of_nat (length fs) =? 0) || negb (0 + N.of_nat (length fs) - 1 =? 0 + N.of_nat (length fs) - 1)) = false).
+  { rewrite N.eqb_refl. cbn [negb]. rewrite orb_false_r. apply N.eqb_neq. lia. }
+  rewrite X, fconss_ok, List.app_nil_r. reflexivity.
+Qed.
+
+(** ** parsePoint on the printed line *)
+Lemma make_key_nonempty n ts : key_name_ok n = true -> make_key n ts <> [].
+Proof.
+  intro Hn. unfold make_key. pose proof Hn as Hn'. unfold key_name_ok in Hn'. apply andb_true_iff in Hn' as [NE Sn].
+  rewrite (unescape_meas_safe n Sn), escape_meas_set.
+  assert (esc_set is_meas_stop n <> []) by (apply esc_set_nonempty; destruct n; [discriminate|discriminate]).
+  destruct (esc_set is_meas_stop n); [congruence|discriminate].
+Qed.
+
+Definition printed_raw (pf : N -> bytes) (prec : precision) (dflt : Z) (p : apoint) : rawpoint :=
+  {| rp_key := make_key (a_name p) (a_tags p); rp_fields := print_fields pf (a_fields p);
+     rp_time := expected_time prec dflt p |}.
+
+Lemma parse_point_printed pf prec dflt p : valid pf prec p = true ->
+  parse_point prec dflt (print_point pf prec p) = Ok (printed_raw pf prec dflt p).
+Proof.
+  unfold valid. rewrite !andb_true_iff. intros [[[[[NP HN] HT] HF] HS] HM].
+  destruct (name_ok_key _ HN) as [Hk _]. destruct (tags_ok_parts _ HT) as [_ [KT _]].
+  destruct (fields_ok_fkv pf _ HF) as [NEf FA].
+  set (K := make_key (a_name p) (a_tags p)) in *. set (F := print_fields pf (a_fields p)).
+  assert (NEK : K <> []) by (apply make_key_nonempty; exact Hk).
+  assert (NEF : F <> []) by (apply print_fields_nonempty; exact NEf).
+  assert (FO : Forall (field_ok pf (blen K)) (a_fields p)).
+  { apply Forall_forall. intros kv Hin. rewrite Forall_forall in FA. destruct (FA _ Hin) as [A B].
+    rewrite forallb_forall in HS. specialize (HS _ Hin). apply N.leb_le in HS. repeat split; auto. }
+  assert (KL : (MaxKeyLength <? blen K) = false).
+  { apply N.ltb_ge. destruct (a_fields p) as [|kv r]; [congruence|]. inversion FO as [|? ? [_ [_ B]] _]; subst. lia. }
+  unfold print_point, parse_point. fold K. fold F.
+  set (T := match a_time p with None => [] | Some t => SP :: print_int (Z.quot t (prec_mult prec)) end).
+  assert (TL : T = [] \/ exists l', T = SP :: l') by (unfold T; destruct (a_time p); eauto).
+  pose proof (scan_key_printed _ _ (F ++ T) HN HT) as SK. fold K in SK. rewrite SK.
+  destruct K as [|k0 K'] eqn:EK; [congruence|]. rewrite <- EK in *. rewrite KL.
+  pose proof (scan_fields_printed pf (a_fields p) T HF TL) as SF. fold F in SF. rewrite SF.
+  destruct F as [|f0 F'] eqn:EF; [congruence|]. rewrite <- EF in *.
+  pose proof (split_fields_printed pf (blen K) (a_fields p) NEf FO) as SP'. fold F in SP'. rewrite SP'.
+  unfold printed_raw, expected_time. fold K. unfold T. destruct (a_time p) as [t|] eqn:ET.
+  - (* explicit timestamp *)
+    unfold new_point_ok in NP. rewrite ET in NP. rewrite !andb_true_iff in NP.
+    destruct NP as [[[_ TO] _] _]. apply Z.eqb_eq in HM.
+    destruct (safe_calc_time_exact t prec TO HM) as [SC QR].
+    rewrite scan_time_print. pose proof (print_int_nonempty (Z.quot t (prec_mult prec))) as NEI.
+    destruct (print_int (Z.quot t (prec_mult prec))) eqn:EI; [congruence|]. rewrite <- EI.
+    rewrite (parse_int64_print _ QR), SC. cbn [forallb]. f_equal. f_equal.
+    assert (prec_mult prec <> 0)%Z by (destruct prec; cbn; lia).
+    pose proof (proj2 (Z.quot_exact t (prec_mult prec) H) (proj2 (Z.rem_mod_eq_0 t (prec_mult prec) H) HM)). lia.
+  - reflexivity.
+Qed.
+
+(** ** The accessors on the reparsed point *)
+Definition expected_pview (prec : precision) (dflt : Z) (p : apoint) : pview :=
+  {| v_key := make_key (a_name p) (a_tags p); v_name := a_name p; v_tags := a_tags p;
+     v_fields := a_fields p; v_time := expected_time prec dflt p |}.
+
+Lemma view_printed pf prec dflt p : valid pf prec p = true ->
+  view (printed_raw pf prec dflt p) = expected_pview prec dflt p.
+Proof.
+  unfold valid. rewrite !andb_true_iff. intros [[[[[NP HN] HT] HF] HS] HM].
+  destruct (name_ok_key _ HN) as [Hk _]. destruct (tags_ok_parts _ HT) as [_ [KT _]].
+  destruct (fields_ok_fkv pf _ HF) as [NEf FA].
+  unfold view, printed_raw, expected_pview. cbn [rp_key rp_fields rp_time].
+  rewrite (name_of_make_key _ _ HN KT), (walk_tags_make_key _ _ Hk KT).
+  rewrite (fields_of_printed pf (blen (make_key (a_name p) (a_tags p))) (a_fields p) NEf); [reflexivity|].
+  apply Forall_forall. intros kv Hin. rewrite Forall_forall in FA. destruct (FA _ Hin) as [A B].
+  rewrite forallb_forall in HS. specialize (HS _ Hin). apply N.leb_le in HS. repeat split; auto.
+Qed.
+
+(** ** scanLine: the printed text is ONE block *)
+Fixpoint pconss (w : bytes) (r : bytes * bytes) : bytes * bytes :=
+  match w with [] => r | c :: t => pcons c (pconss t r) end.
+Lemma pconss_ok w a r : pconss w (a, r) = (w ++ a, r).
+Proof. induction w as [|c t IH]; [reflexivity|]. cbn [pconss app]. rewrite IH. reflexivity. Qed.
+Lemma pconss_app a b r : pconss (a ++ b) r = pconss a (pconss b r).
+Proof. induction a as [|x a IH]; [reflexivity|]. cbn [app pconss]. rewrite IH. reflexivity. Qed.
+
+Lemma sl_step_bsl q f e c a b t :
+  scan_line q f e c (BSL :: a :: b :: t) = pcons BSL (pcons a (scan_line q f e c (b :: t))).
+Proof. reflexivity. Qed.
+
+Lemma sl_step_plain q f e c x t :
+  (x =? BSL) = false -> (x =? NL) = false ->
+  ((f || (x =? SP)) && negb q && (x =? EQ)) = false ->
+  ((f || (x =? SP)) && negb q && (x =? COMMA)) = false ->
+  ((f || (x =? SP)) && (x =? DQ) && (c <? e)) = false ->
+  scan_line q f e c (x :: t) = pcons x (scan_line q (f || (x =? SP)) e c t).
+Proof. intros B NLx E C D. cbn [scan_line]. rewrite B, E, C, D, NLx. reflexivity. Qed.
+
+(** an escaped, backslash-safe token followed by at least one byte *)
+Lemma sl_tok S q f e c : S BSL = false -> forall tok, bsl_safe S tok = true ->
+  (forall x t', In x tok -> S x = false -> (x =? BSL) = false ->
+                scan_line q f e c (x :: t') = pcons x (scan_line q f e c t')) ->
+  forall l, l <> [] ->
+  scan_line q f e c (esc_set S tok ++ l) = pconss (esc_set S tok) (scan_line q f e c l).
+Proof.
+  intro Sb. induction tok as [tok IH] using list_len_ind. intros Sf STEP l NE.
+  destruct tok as [|x t]; [reflexivity|].
+  pose proof (bsl_safe_tail _ _ _ Sf) as St.
+  assert (NE' : forall t0, esc_set S t0 ++ l <> []) by (intros t0 H; apply app_eq_nil in H as [_ H]; congruence).
+  assert (STEPt : forall t0, (forall y, In y t0 -> In y (x :: t)) ->
+            forall y t', In y t0 -> S y = false -> (y =? BSL) = false ->
+            scan_line q f e c (y :: t') = pcons y (scan_line q f e c t')) by (intros; apply STEP; auto).
+  rewrite esc_set_cons. destruct (S x) eqn:Sx; cbn [app pconss].
+  - specialize (NE' t). destruct (esc_set S t ++ l) as [|b r] eqn:E; [congruence|].
+    rewrite sl_step_bsl, <- E. rewrite (IH t ltac:(cbn; lia) St (STEPt t ltac:(intros; right; auto)) l NE). reflexivity.
+  - destruct (x =? BSL) eqn:B.
+    + apply N.eqb_eq in B. subst x. cbn [bsl_safe] in Sf. change (BSL =? BSL) with true in Sf. cbn iota in Sf.
+      destruct t as [|a t']; [discriminate|]. apply andb_true_iff in Sf as [Sa _]. apply negb_true_iff in Sa.
+      pose proof (bsl_safe_tail _ _ _ St) as St'.
+      rewrite esc_set_cons, Sa. cbn [app pconss].
+      specialize (NE' t'). destruct (esc_set S t' ++ l) as [|b r] eqn:E; [congruence|].
+      rewrite sl_step_bsl, <- E.
+      rewrite (IH t' ltac:(cbn; lia) St' (STEPt t' ltac:(intros; right; right; auto)) l NE). reflexivity.
+    + rewrite (STEP x _ ltac:(left; reflexivity) Sx B).
+      rewrite (IH t ltac:(cbn; lia) St (STEPt t ltac:(intros; right; auto)) l NE). reflexivity.
+Qed.
+
+(** key section: fields = false; nothing matters but unescaped spaces and newlines *)
+Lemma sl_key_tok S tok e c l : S BSL = false -> S SP = true -> bsl_safe S tok = true -> no_nl tok = true -> l <> [] ->
+  scan_line false false e c (esc_set S tok ++ l) = pconss (esc_set S tok) (scan_line false false e c l).
+Proof.
+  intros Sb Ssp Sf NLt NE. apply sl_tok; auto. intros x t' Hin Sx B.
+  assert (X : (x =? SP) = false).
+  { destruct (x =? SP) eqn:E; [|reflexivity]. apply N.eqb_eq in E. subst. congruence. }
+  unfold no_nl in NLt. rewrite forallb_forall in NLt. specialize (NLt _ Hin). apply negb_true_iff in NLt.
+  rewrite sl_step_plain; rewrite ?X; cbn [orb andb]; auto.
+Qed.
+
+Lemma sl_key_plain x e c t : (x =? BSL) = false -> (x =? NL) = false -> (x =? SP) = false ->
+  scan_line false false e c (x :: t) = pcons x (scan_line false false e c t).
+Proof. intros B N0 X. rewrite sl_step_plain; rewrite ?X; cbn [orb andb]; auto. Qed.
+
+Lemma sl_tags e c : forall ts l, l <> [] ->
+  forallb (fun kv => tagtok_ok (fst kv) && tagtok_ok (snd kv)) ts = true ->
+  scan_line false false e c (flat_map tag_text ts ++ l) = pconss (flat_map tag_text ts) (scan_line false false e c l).
+Proof.
+  induction ts as [|[k v] r IH]; intros l NE H; [reflexivity|]. cbn [forallb fst snd] in H.
+  apply andb_true_iff in H as [H1 H2]. apply andb_true_iff in H1 as [Hk Hv].
+  unfold tagtok_ok in Hk, Hv. rewrite !andb_true_iff in Hk, Hv. destruct Hk as [[_ NLk] Sk]. destruct Hv as [[_ NLv] Sv].
+  cbn [flat_map]. unfold tag_text at 1 3. cbn [fst snd]. rewrite !escape_tag_set.
+  rewrite <- !List.app_assoc. cbn [app]. rewrite <- !List.app_assoc. cbn [app].
+  assert (NE2 : flat_map tag_text r ++ l <> []) by (intro X; apply app_eq_nil in X as [_ X]; congruence).
+  rewrite sl_key_plain by reflexivity.
+  rewrite (sl_key_tok is_tag_stop k e c (EQ :: esc_set is_tag_stop v ++ flat_map tag_text r ++ l) eq_refl eq_refl Sk NLk ltac:(discriminate)).
+  rewrite sl_key_plain by reflexivity.
+  rewrite (sl_key_tok is_tag_stop v e c _ eq_refl eq_refl Sv NLv NE2).
+  rewrite (IH l NE H2).
+  cbn [pconss]. rewrite !pconss_app. cbn [pconss]. rewrite !pconss_app. reflexivity.
+Qed.
+
+(** fields section: fields = true *)
+Lemma sl_fkey k e l : bsl_safe is_esc_char k = true -> no_nl k = true -> l <> [] ->
+  scan_line false true e e (escape_string k ++ l) = pconss (escape_string k) (scan_line false true e e l).
+Proof.
+  intros Sf NLk NE. rewrite escape_string_set. apply sl_tok; auto. intros x t' Hin Sx B.
+  destruct (esc_char_cases x Sx) as [C1 [C2 [C3 C4]]].
+  unfold no_nl in NLk. rewrite forallb_forall in NLk. specialize (NLk _ Hin). apply negb_true_iff in NLk.
+  rewrite sl_step_plain; cbn [orb andb negb]; rewrite ?C1, ?C2, ?C4; auto.
+Qed.
+
+Lemma sl_eq e c t : scan_line false true e c (EQ :: t) = pcons EQ (scan_line false true (e + 1) c t).
+Proof. reflexivity. Qed.
+Lemma sl_comma e c t : scan_line false true e c (COMMA :: t) = pcons COMMA (scan_line false true e (c + 1) t).
+Proof. reflexivity. Qed.
+
+Definition sl_char (x : N) : bool :=
+  negb ((x =? BSL) || (x =? NL) || (x =? EQ) || (x =? COMMA) || (x =? DQ)).
+
+Lemma sl_plain_tok e c : forall w l, forallb sl_char w = true ->
+  scan_line false true e c (w ++ l) = pconss w (scan_line false true e c l).
+Proof.
+  induction w as [|x t IH]; intros l H; [reflexivity|]. cbn [forallb] in H. apply andb_true_iff in H as [H1 H2].
+  unfold sl_char in H1. apply negb_true_iff in H1. repeat (apply orb_false_iff in H1 as [H1 ?]).
+  cbn [app pconss]. rewrite sl_step_plain; cbn [orb andb negb]; rewrite ?H, ?H0, ?H3; auto.
+  rewrite (IH l H2). reflexivity.
+Qed.
+
+Lemma sl_step_quoted e c x t : (x =? BSL) = false -> (x =? DQ) = false ->
+  scan_line true true e c (x :: t) = pcons x (scan_line true true e c t).
+Proof.
+  intros B D. cbn [scan_line]. rewrite B, D. cbn [orb andb negb]. rewrite !andb_false_r. reflexivity.
+Qed.
+
+Lemma sl_esf e c : forall s l, l <> [] ->
+  scan_line true true e c (escape_string_field s ++ l) = pconss (escape_string_field s) (scan_line true true e c l).
+Proof.
+  induction s as [|x t IH]; intros l NE; [reflexivity|]. unfold escape_string_field in *. cbn [flat_map].
+  destruct ((x =? DQ) || (x =? BSL)) eqn:E; rewrite <- List.app_assoc; cbn [app pconss].
+  - assert (NE' : flat_map (fun c0 => if (c0 =? DQ) || (c0 =? BSL) then [BSL; c0] else [c0]) t ++ l <> [])
+      by (intro X; apply app_eq_nil in X as [_ X]; congruence).
+    destruct (flat_map _ t ++ l) as [|b r] eqn:E2; [congruence|]. rewrite sl_step_bsl, <- E2, (IH l NE). reflexivity.
+  - apply orb_false_iff in E as [E1 E2]. rewrite (sl_step_quoted e c x _ E2 E1), (IH l NE). reflexivity.
+Qed.
+
+Lemma sl_str e c s l : (c <? e) = true ->
+  scan_line false true e c ((DQ :: escape_string_field s ++ [DQ]) ++ l)
+  = pconss (DQ :: escape_string_field s ++ [DQ]) (scan_line false true e c l).
+Proof.
+  intro LT. cbn [app]. rewrite <- List.app_assoc. cbn [app].
+  assert (OPEN : forall t, scan_line false true e c (DQ :: t) = pcons DQ (scan_line true true e c t)).
+  { intro t. cbn [scan_line]. change (DQ =? BSL) with false. change (DQ =? SP) with false.
+    change (DQ =? EQ) with false. change (DQ =? COMMA) with false. rewrite N.eqb_refl, LT. reflexivity. }
+  assert (CLOSE : forall t, scan_line true true e c (DQ :: t) = pcons DQ (scan_line false true e c t)).
+  { intro t. cbn [scan_line]. change (DQ =? BSL) with false. change (DQ =? SP) with false.
+    change (DQ =? EQ) with false. change (DQ =? COMMA) with false. rewrite N.eqb_refl, LT. reflexivity. }
+  rewrite OPEN, (sl_esf e c s (DQ :: l) ltac:(discriminate)), CLOSE.
+  cbn [pconss]. rewrite pconss_app. reflexivity.
+Qed.
+
+Definition sl_val (vt : bytes) : Prop :=
+  forall e c l, (c <? e) = true -> scan_line false true e c (vt ++ l) = pconss vt (scan_line false true e c l).
+
+Lemma digits_sl w : forallb is_digit w = true -> forallb sl_char w = true.
+Proof.
+  intro H. rewrite forallb_forall in *. intros c Hc. specialize (H _ Hc).
+  unfold sl_char, is_digit, BSL, NL, EQ, COMMA, DQ in *. lia.
+Qed.
+Lemma print_int_sl z : forallb sl_char (print_int z) = true.
+Proof.
+  unfold print_int. destruct z; try (apply digits_sl, print_nat_digits).
+  cbn [forallb]. rewrite (digits_sl _ (print_nat_digits _)). reflexivity.
+Qed.
+
+Lemma sl_val_print pf v : value_ok pf v = true -> sl_val (print_value pf v).
+Proof.
+  destruct v as [z|n|b|[|]|s| |e0]; cbn [value_ok print_value]; intro H; try discriminate.
+  - intros e1 c1 l1 _; apply sl_plain_tok. rewrite forallb_app, print_int_sl. reflexivity.
+  - intros e1 c1 l1 _; apply sl_plain_tok. rewrite forallb_app, (digits_sl _ (print_nat_digits _)). reflexivity.
+  - intros e1 c1 l1 _; apply sl_plain_tok. rewrite !andb_true_iff in H. destruct H as [[[_ H] _] _].
+    rewrite forallb_forall in *. intros x Hx. specialize (H _ Hx).
+    unfold sl_char, is_digit, DOT, MINUS, BSL, NL, EQ, COMMA, DQ in *. lia.
+  - intros e1 c1 l1 _; apply sl_plain_tok. reflexivity.
+  - intros e1 c1 l1 _; apply sl_plain_tok. reflexivity.
+  - intros e1 c1 l1 LT. apply sl_str. exact LT.
+Qed.
+
+Lemma sl_fields pf : forall fs, fs <> [] -> Forall (fkv_ok pf) fs -> forall e l,
+  (fs = [] \/ True) ->
+  scan_line false true e e (print_fields pf fs ++ l)
+  = pconss (print_fields pf fs)
+      (scan_line false true (e + N.of_nat (length fs)) (e + N.of_nat (length fs) - 1) l).
+Proof.
+  induction fs as [|kv r IH]; [congruence|]. intros _ H e l _.
+  inversion H as [|? ? [HK HV] H2]; subst.
+  pose proof HK as HK'. unfold fieldkey_ok in HK'. rewrite !andb_true_iff in HK'. destruct HK' as [[_ NLk] Sk].
+  assert (LT : (e <? e + 1) = true) by (apply N.ltb_lt; lia).
+  destruct r as [|kv' r'].
+  - rewrite print_fields_one, List.app_nil_r. rewrite <- List.app_assoc. cbn [app].
+    rewrite sl_fkey; [|exact Sk|exact NLk|discriminate]. rewrite sl_eq, (sl_val_print pf _ HV (e + 1) e l LT).
+    rewrite pconss_app. cbn [pconss length]. replace (e + N.of_nat 1) with (e + 1) by lia.
+    replace (e + 1 - 1) with e by lia. reflexivity.
+  - rewrite print_fields_cons by discriminate. set (R := print_fields pf (kv' :: r')) in *.
+    rewrite <- !List.app_assoc. cbn [app]. rewrite <- !List.app_assoc. cbn [app].
+    rewrite sl_fkey; [|exact Sk|exact NLk|discriminate]. rewrite sl_eq, (sl_val_print pf _ HV (e + 1) e _ LT), sl_comma.
+    rewrite (IH ltac:(discriminate) H2 (e + 1) l (or_intror I)).
+    rewrite pconss_app. cbn [pconss]. rewrite pconss_app. cbn [pconss].
+    cbn [length]. rewrite !Nat2N.inj_succ.
+    replace (e + 1 + N.succ (N.of_nat (length r'))) with (e + N.succ (N.succ (N.of_nat (length r')))) by lia.
+    reflexivity.
+Qed.
+
+Lemma tags_ok_tok ts : tags_ok ts = true ->
+  forallb (fun kv => tagtok_ok (fst kv) && tagtok_ok (snd kv)) ts = true.
+Proof.
+  unfold tags_ok. rewrite !andb_true_iff. intros [[H _] _]. rewrite forallb_forall in *. intros kv Hin.
+  specialize (H _ Hin). rewrite !andb_true_iff in H. destruct H as [[A B] _]. rewrite A, B. reflexivity.
+Qed.
+
+Definition time_text (prec : precision) (p : apoint) : bytes :=
+  match a_time p with None => [] | Some t => SP :: print_int (Z.quot t (prec_mult prec)) end.
+
+Lemma print_point_shape pf prec p : name_ok (a_name p) = true -> tags_ok (a_tags p) = true ->
+  print_point pf prec p
+  = escape_meas (a_name p) ++ flat_map tag_text (a_tags p) ++ SP :: print_fields pf (a_fields p) ++ time_text prec p.
+Proof.
+  intros HN HT. destruct (name_ok_key _ HN) as [Hk _]. destruct (tags_ok_parts _ HT) as [_ [KT _]].
+  unfold key_name_ok in Hk. apply andb_true_iff in Hk as [_ Sn].
+  unfold print_point, make_key, time_text. rewrite (unescape_meas_safe _ Sn), (hash_key_text _ KT).
+  rewrite <- List.app_assoc. reflexivity.
+Qed.
+
+Lemma scan_line_printed pf prec p : valid pf prec p = true ->
+  scan_line false false 0 0 (print_point pf prec p) = (print_point pf prec p, []).
+Proof.
+  intro V. pose proof V as V'. unfold valid in V'. rewrite !andb_true_iff in V'.
+  destruct V' as [[[[[NP HN] HT] HF] HS] HM].
+  destruct (fields_ok_fkv pf _ HF) as [NEf FA].
+  rewrite (print_point_shape pf prec p HN HT).
+  pose proof HN as HN'. unfold name_ok in HN'. rewrite !andb_true_iff in HN'. destruct HN' as [[_ NLn] Se].
+  assert (Sn : bsl_safe is_meas_stop (a_name p) = true) by (eapply bsl_safe_mono; [|exact Se]; apply meas_stop_esc).
+  set (F := print_fields pf (a_fields p)). set (T := time_text prec p). set (TG := flat_map tag_text (a_tags p)).
+  rewrite escape_meas_set.
+  rewrite (sl_key_tok is_meas_stop (a_name p) 0 0 (TG ++ SP :: F ++ T) eq_refl eq_refl Sn NLn);
+    [|intro X; apply app_eq_nil in X as [_ X]; discriminate].
+  unfold TG. rewrite (sl_tags 0 0 (a_tags p) (SP :: F ++ T) ltac:(discriminate) (tags_ok_tok _ HT)). fold TG.
+  assert (SPS : scan_line false false 0 0 (SP :: F ++ T) = pcons SP (scan_line false true 0 0 (F ++ T))) by reflexivity.
+  rewrite SPS. unfold F. rewrite (sl_fields pf (a_fields p) NEf FA 0 T (or_intror I)). fold F.
+  assert (TT : forall e c, scan_line false true e c T = (T, [])).
+  { intros e c. unfold T, time_text. destruct (a_time p) as [t|]; [|reflexivity].
+    rewrite <- (List.app_nil_r (SP :: print_int _)).
+    rewrite sl_plain_tok; [cbn [scan_line]; rewrite pconss_ok, List.app_nil_r; reflexivity|].
+    cbn [forallb]. rewrite print_int_sl. reflexivity. }
+  rewrite TT. rewrite pconss_ok. unfold pcons. cbn [fst snd]. rewrite !pconss_ok. cbn [fst snd].
+  reflexivity.
+Qed.
+
+Lemma rev_head_last {A} (l : list A) c r d : rev l = c :: r -> last l d = c.
+Proof.
+  intro H. assert (E : l = rev r ++ [c]) by (rewrite <- (rev_involutive l), H; reflexivity).
+  rewrite E. apply last_last.
+Qed.
+
+Lemma strip_nl_id l : (last l 0 =? NL) = false -> strip_nl l = l.
+Proof.
+  intro H. unfold strip_nl. rewrite frev_rev. destruct (rev l) as [|c r] eqn:E; [reflexivity|].
+  rewrite (rev_head_last l c r 0 E) in H. rewrite H. reflexivity.
+Qed.
+
+Lemma last_not_nl w d : w <> [] -> forallb (fun c => negb (c =? NL)) w = true -> (last w d =? NL) = false.
+Proof.
+  intros NE H. rewrite forallb_forall in H. apply negb_true_iff. apply H.
+  destruct w as [|x w']; [congruence|]. rewrite (last_indep (x :: w') d x ltac:(discriminate)).
+  clear. revert x. induction w' as [|y w IH]; intro x; [left; reflexivity|]. right.
+  change (last (x :: y :: w) x) with (last (y :: w) x). rewrite (last_indep (y :: w) x y ltac:(discriminate)). apply IH.
+Qed.
+
+Lemma print_value_last pf v d : value_ok pf v = true -> (last (print_value pf v) d =? NL) = false.
+Proof.
+  destruct v as [z|n|b|[|]|s| |e0]; cbn [value_ok print_value]; intro H; try discriminate.
+  - rewrite last_snoc. reflexivity.
+  - rewrite last_snoc. reflexivity.
+  - rewrite !andb_true_iff in H. destruct H as [[[[_ HD] CH] _] _].
+    apply last_not_nl; [destruct (pf b); [discriminate|discriminate]|].
+    rewrite forallb_forall in *. intros x Hx. specialize (CH _ Hx). unfold is_digit, DOT, MINUS, NL in *. lia.
+  - reflexivity.
+  - reflexivity.
+  - change (DQ :: escape_string_field s ++ [DQ]) with ((DQ :: escape_string_field s) ++ [DQ]). rewrite last_snoc. reflexivity.
+Qed.
+
+Lemma print_fields_last pf : forall fs d, fs <> [] -> Forall (fkv_ok pf) fs ->
+  (last (print_fields pf fs) d =? NL) = false.
+Proof.
+  induction fs as [|kv r IH]; intros d NE H; [congruence|]. inversion H as [|? ? [HK HV] H2]; subst.
+  pose proof (print_value_nonempty pf _ HV) as NEv.
+  destruct r as [|kv' r'].
+  - rewrite print_fields_one, List.app_nil_r.
+    rewrite last_app_ne by discriminate. rewrite last_cons. 
+    destruct (print_value pf (snd kv)) eqn:E; [congruence|]. rewrite <- E.
+    rewrite (last_indep _ EQ d) by (rewrite E; discriminate). apply print_value_last. exact HV.
+  - rewrite print_fields_cons by discriminate.
+    rewrite last_app_ne by discriminate. rewrite last_cons, last_app_ne by discriminate. rewrite last_cons.
+    pose proof (print_fields_nonempty pf (kv' :: r') ltac:(discriminate)) as NEr.
+    rewrite (last_indep _ COMMA d NEr). apply IH; [discriminate|exact H2].
+Qed.
+
+Lemma candidate_lines_printed pf prec p : valid pf prec p = true ->
+  candidate_lines (print_point pf prec p) = [print_point pf prec p].
+Proof.
+  intro V. pose proof (scan_line_printed pf prec p V) as SL.
+  pose proof V as V'. unfold valid in V'. rewrite !andb_true_iff in V'.
+  destruct V' as [[[[[NP HN] HT] HF] HS] HM]. destruct (fields_ok_fkv pf _ HF) as [NEf FA].
+  pose proof (print_point_shape pf prec p HN HT) as SH.
+  unfold candidate_lines. cbn [split_blocks].
+  assert (NE : print_point pf prec p <> []).
+  { rewrite SH. intro X. apply app_eq_nil in X as [_ X]. apply app_eq_nil in X as [_ X]. discriminate. }
+  destruct (print_point pf prec p) as [|b0 br] eqn:EP; [congruence|]. rewrite <- EP in *.
+  rewrite SL. cbn [tl]. assert (SB : forall f, split_blocks f [] = []) by (destruct f; reflexivity).
+  rewrite SB. cbn [map filter_some].
+  (* the block is a candidate: not blank, not a comment, no trailing newline *)
+  assert (CAND : candidate (print_point pf prec p) = Some (print_point pf prec p)).
+  { unfold candidate. rewrite SH at 1. rewrite (skip_ws_name _ _ HN). rewrite <- SH.
+    assert (HD : exists c0 w, print_point pf prec p = c0 :: w /\ (c0 =? HASH) = false).
+    { rewrite SH. pose proof HN as HN'. unfold name_ok in HN'. rewrite !andb_true_iff in HN'. destruct HN' as [[H0 _] _].
+      destruct (a_name p) as [|c t]; [discriminate|]. rewrite escape_meas_set, esc_set_cons.
+      destruct (is_meas_stop c) eqn:E; cbn [app]; eexists _, _; (split; [reflexivity|]); [reflexivity|].
+      apply negb_true_iff in H0. apply orb_false_iff in H0 as [H0 _]. apply orb_false_iff in H0 as [H0 _]. exact H0. }
+    destruct HD as [c0 [w [E C0]]]. rewrite E. cbn iota. rewrite C0. rewrite <- E. f_equal. apply strip_nl_id.
+    unfold print_point. rewrite last_app_ne by discriminate. rewrite last_cons.
+    destruct (a_time p) as [t|].
+    - rewrite last_app_ne by discriminate. rewrite last_cons.
+      rewrite (last_indep _ SP 0 (print_int_nonempty _)).
+      apply last_not_nl; [apply print_int_nonempty|].
+      pose proof (print_int_sl (Z.quot t (prec_mult prec))) as PS. rewrite forallb_forall in *. intros x Hx.
+      specialize (PS _ Hx). unfold sl_char in PS. apply negb_true_iff in PS. repeat (apply orb_false_iff in PS as [PS ?]).
+      rewrite H2. reflexivity.
+    - rewrite List.app_nil_r. apply print_fields_last; auto. }
+  rewrite CAND. reflexivity.
+Qed.
+
+(** * The line-protocol round trip *)
+Lemma expected_time_valid pf prec dflt p : valid pf prec p = true ->
+  expected_time prec dflt p = match a_time p with Some t => t | None => trunc_time dflt prec end.
+Proof.
+  unfold valid. rewrite !andb_true_iff. intros [_ HM]. unfold expected_time. destruct (a_time p) as [t|]; [|reflexivity].
+  apply Z.eqb_eq in HM. assert (prec_mult prec <> 0)%Z by (destruct prec; cbn; lia).
+  pose proof (proj2 (Z.quot_exact t (prec_mult prec) H) (proj2 (Z.rem_mod_eq_0 t (prec_mult prec) H) HM)). lia.
+Qed.
+
+Lemma lp_roundtrip pf prec dflt p : valid pf prec p = true ->
+  reparse prec dflt pf p =
+    ([ {| v_key := make_key (a_name p) (a_tags p); v_name := a_name p; v_tags := a_tags p;
+          v_fields := a_fields p;
+          v_time := match a_time p with Some t => t | None => trunc_time dflt prec end |} ], []).
+Proof.
+  intro V. unfold reparse, parse_points. rewrite (candidate_lines_printed pf prec p V).
+  cbn [parse_lines]. rewrite (parse_point_printed pf prec dflt p V). cbn [fst snd map].
+  rewrite (view_printed pf prec dflt p V). unfold expected_pview. rewrite (expected_time_valid pf prec dflt p V).
+  reflexivity.
 Qed.
